@@ -168,6 +168,19 @@ func genCapacity(rng *rand.Rand, thorough bool) []capDesc {
 				if dist == "uniform" {
 					d.Expiry = []string{"far", "mixed"}[r%2]
 				}
+				// every size gets the bound checked after a Flush as well
+				switch {
+				case dist == "uniform" && r == 0:
+					d.Flush = "first"
+				case dist == "one-shard" && r == 0:
+					d.Flush = "mid"
+					d.Keys = 3*b + 900 // more than the bound remains to be stored after the last flush
+				case r > 0 || di >= 2:
+					d.Flush = []string{"", "first", "mid"}[rng.Intn(3)]
+					if d.Flush == "mid" && dist != "same-sum" {
+						d.Keys = 3*b + 900
+					}
+				}
 				n++
 				out = append(out, d)
 			}
@@ -184,6 +197,9 @@ func genCapacity(rng *rand.Rand, thorough bool) []capDesc {
 				Goroutines: []int{16, 24, 32}[rng.Intn(3)], Keys: 250, Procs: 16, Expiry: "far", GCMicros: 1000, Shards: h}
 			if hi%3 == 2 {
 				d.Procs = 4
+			}
+			if hi%2 == 1 {
+				d.Flush = "mid"
 			}
 			if thorough {
 				d.Keys = 600
@@ -355,6 +371,10 @@ func judgeHistory(h *history) (found bool) {
 	if d.Workload == "cache" && d.Flavour == "evict" {
 		rep.Count("histories_on_prefilled_store", 1)
 	}
+	if h.Refilled {
+		rep.Count("histories_refilled_beyond_bound_after_flush", 1)
+		rep.SetAdd("sizes_refilled_after_flush_in_history", fmt.Sprint(d.Size))
+	}
 	rep.SetAdd("config_classes", d.class())
 	if st.hits > 0 && st.missAfterStore > 0 && st.getsOverlapMut > 0 {
 		rep.Nontrivial(fmt.Sprintf("%x", st.fp))
@@ -422,6 +442,13 @@ func judgeCapacity(r capResult) (found bool) {
 	rep.Count("capacity_range_calls", int64(r.Ranges))
 	rep.Count("capacity_gets", int64(r.Gets))
 	rep.Count("capacity_get_hits", int64(r.Hits))
+	if r.Flushes > 0 {
+		rep.Count("capacity_cases_with_flush", 1)
+		rep.Count("capacity_flushes", int64(r.Flushes))
+		if r.AfterFlush > r.Bound || d.Flush == "first" || d.Workload == "capacity-storm" {
+			rep.Count("capacity_cases_refilled_beyond_bound_after_flush", 1)
+		}
+	}
 	seen := r.MaxLen
 	if r.MaxRange > seen {
 		seen = r.MaxRange
@@ -444,7 +471,7 @@ func judgeCapacity(r capResult) (found bool) {
 		rep.Nontrivial(fmt.Sprintf("cap/%s/%d/%s/%d/%d/%d/%d", d.Workload, d.Size, d.Dist, d.Shards, d.MaxPerShard, d.N, r.MaxLen))
 		rep.Count("capacity_cases_nontrivial", 1)
 	}
-	rep.SetAdd("config_classes", fmt.Sprintf("%s/size%d/%s/%s/lru%dx%d", d.Workload, d.Size, d.Dist, d.Expiry, d.Shards, d.MaxPerShard))
+	rep.SetAdd("config_classes", fmt.Sprintf("%s/size%d/%s/%s/lru%dx%d/flush-%s", d.Workload, d.Size, d.Dist, d.Expiry, d.Shards, d.MaxPerShard, d.Flush))
 	statMu.Lock()
 	ss := lstat(d.Shards, d.MaxPerShard)
 	if d.Workload == "capacity" || d.Workload == "capacity-storm" {
